@@ -228,7 +228,11 @@ func (p c20) run(c *core.C, t *core.T, cs c20Case) {
 	for _, n := range cs.Names {
 		if plain(n) && n != ctlName {
 			// (now and then a size at a block boundary of copy loops: 32 KiB, 64 KiB, one less, one more)
-			write(filepath.Join(src, n), r.Pick3(r.Range(0, 400), r.Range(0, 400), 32768, 65536, 32767, 32769, 4096))
+			size := r.Pick3(r.Range(0, 400), r.Range(0, 400), 32768, 65536, 32767, 32769, 4096)
+			if cs.Fault == "control-copy-cut-short" {
+				size %= 401 // the file-size limit that cuts the control file short must let the referenced files through
+			}
+			write(filepath.Join(src, n), size)
 		}
 	}
 	// faults
@@ -721,6 +725,11 @@ func (p c20) RunBatch(t *core.T, b core.Batch) {
 			}
 			f := faults[(i/6)%len(faults)]
 			emit(c20Case{Op: op, Handle: h, Names: names, Fault: f, Seed: r.U64(), Pre: op != "Remove" && i%2 == 1})
+			if op == "Copy" && i%3 == 0 {
+				// the combination that matters most for a re-upload: an earlier control file of the same name is in
+				// the destination AND the copy of the new one breaks off part-way
+				emit(c20Case{Op: op, Handle: h, Names: names, Fault: "control-copy-cut-short", Seed: r.U64(), Pre: true})
+			}
 		case "hostile":
 			k := r.Range(0, 3)
 			names := plainNames(r, k)
